@@ -1,6 +1,7 @@
 (* C06 — truncated or mistyped input is rejected, never decoded into made-up data. Statements only. *)
 From Coq Require Import List NArith ZArith.
-From TarsV Require Import Base.Hex Codec.Wire Codec.Skip Codec.Prim Codec.PrimProofs Codec.GenCodec Codec.Corr Codec.GenProofs.
+From TarsV Require Import Base.Hex Codec.Wire Codec.Skip Codec.Prim Codec.PrimProofs Codec.GenCodec Codec.Corr Codec.GenProofs
+  Codec.RoundTrip Codec.RoundTripProofs Codec.PrefixProofs Codec.RoundTripExamples Gen.Schemas.
 Import ListNotations.
 Open Scope N_scope.
 
@@ -20,18 +21,78 @@ Proof. exact GenProofs.read_slice_exact. Qed.
 Theorem C06_bytes_truncated : forall n r, (0 < n)%Z -> (Z.of_nat (length r) < n)%Z -> read_slice n r = None.
 Proof. exact GenProofs.read_slice_truncated. Qed.
 
-(* every proper prefix of every integer field (any width the cascade chooses, any tag) read as a required
-   member by a reader of any width is an error *)
-Theorem C06_int_prefix_rejected : forall bits f tag v, is_width bits -> tag < 256 -> fits 64 v = true ->
-  forall p q, w_int64 v tag = p ++ q -> q <> [] -> r_int bits (S f) tag true p = RErr.
-Proof. exact GenProofs.int_prefix_rejected. Qed.
+(* member level, every scalar member type (bool, all integer widths, floats, strings, enums), any tag, required or
+   optional: a non-empty proper prefix of the member's encoding is an error - with the single exception that
+   the first byte of a two-byte head on its own makes an OPTIONAL member absent (nothing is made up: the
+   member keeps the target's value and the stray byte is dropped) *)
+Theorem C06_scalar_prefix : forall f tag req t v prior p q, scalar_ty t = true -> sc_typed t v -> tag < 256 ->
+  w_scalar t v tag = p ++ q -> q <> [] -> p <> [] ->
+  dec_scalar (S f) tag req t prior p = DErr \/ (req = false /\ halfhead p /\ dec_scalar (S f) tag req t prior p = DOk prior []).
+Proof. exact PrefixProofs.scalar_prefix. Qed.
 
-(* full statement for whole structs, decided on every run by the correspondence + monitors *)
+(* struct level, every wf_schema environment, every FLAT struct type (all members scalar), every well-typed
+   value, EVERY prefix p of its encoding: decoding p fails, or succeeds with exactly the first i members - those
+   whose encodings are completely contained in p - and all later members optional and at their reset values
+   (prior_ok: the declared default, else the zero value); nothing is left unread *)
+Theorem C06_prefix_flat : forall e k sid vs p q,
+  wf_schema k e -> (S k <= 64)%nat -> flat (fields_of e sid) -> (length (fields_of e sid) + 4 <= 64)%nat ->
+  has_type e (TStruct sid) (VStruct vs) -> encode e sid (VStruct vs) = p ++ q ->
+  decode e sid p = DErr \/
+  exists i h ps, (i <= length (fields_of e sid))%nat /\
+    p = enc_fields e (firstn i vs) (firstn i (fields_of e sid)) ++ h /\ (h = [] \/ halfhead h) /\
+    optional (skipn i (fields_of e sid)) /\
+    Forall2 (fun fd p => prior_ok e (fty fd) (fdef fd) p) (fields_of e sid) ps /\
+    decode e sid p = DOk (VStruct (firstn i (norm_fields e vs (fields_of e sid)) ++ skipn i ps)) [].
+Proof. exact PrefixProofs.prefix_flat. Qed.
+Theorem C06_code_schemas_prefix_flat : forall sid vs p q, flat_b (fields_of env0 sid) = true ->
+  has_type env0 (TStruct sid) (VStruct vs) -> encode env0 sid (VStruct vs) = p ++ q ->
+  decode env0 sid p = DErr \/
+  exists i h ps, (i <= length (fields_of env0 sid))%nat /\
+    p = enc_fields env0 (firstn i vs) (firstn i (fields_of env0 sid)) ++ h /\ (h = [] \/ halfhead h) /\
+    optional (skipn i (fields_of env0 sid)) /\
+    Forall2 (fun fd p => prior_ok env0 (fty fd) (fdef fd) p) (fields_of env0 sid) ps /\
+    decode env0 sid p = DOk (VStruct (firstn i (norm_fields env0 vs (fields_of env0 sid)) ++ skipn i ps)) [].
+Proof. exact RoundTripExamples.env0_prefix_flat. Qed.
+Theorem C06_code_schemas_flat_types :
+  filter (fun sid => flat_b (fields_of env0 sid)) (seq 0 (length env0)) = [3; 4; 6; 9; 10; 11; 12; 13; 14; 15; 17; 20; 22; 23; 27]%nat.
+Proof. exact RoundTripExamples.env0_flat_types. Qed.
+
+(* a present field whose wire type is not admissible for the IDL type of its tag is rejected: member level, every
+   type constructor (scalars, vectors, byte vectors, arrays, maps, structs), behind any unknown fields ... *)
+Theorem C06_inadmissible_member : forall e f tag req t prior lo J ty r,
+  junk_ok lo tag J -> ty < 16 -> tag < 256 -> (ty =? tSE) = false -> adm t ty = false ->
+  (2 * length (ser_fields J ++ head ty tag ++ r) + 3 <= f)%nat ->
+  dec_var (S f) e tag req t prior (ser_fields J ++ head ty tag ++ r) = DErr.
+Proof. exact PrefixProofs.inadmissible_member. Qed.
+(* ... and struct level, any struct type with a finite type graph: the members before it encoded normally,
+   then a field of an inadmissible wire type under the member's tag, then anything *)
+Theorem C06_inadmissible_rejected : forall e k n sid fds1 fd fds2 vs1 ty r,
+  wf_schema k e -> (S k <= 64)%nat -> fields_of e sid = fds1 ++ fd :: fds2 ->
+  Forall2 (fun fd x => has_type e (fty fd) x) fds1 vs1 ->
+  ty < 16 -> (ty =? tSE) = false -> adm (fty fd) ty = false ->
+  tfin n e (TStruct sid) = true -> (tneed n e (TStruct sid) + k <= 64)%nat ->
+  decode e sid (enc_fields e vs1 fds1 ++ head ty (ftag fd) ++ r) = DErr.
+Proof. exact PrefixProofs.inadmissible_rejected. Qed.
+
+(* full statement of the prefix clause for ALL struct types (members of container and struct types included),
+   kept visible; proved above for flat structs, decided on every run by the correspondence + monitors on every
+   generated struct type (all prefixes of small encodings, sampled prefixes, every embedded length inflated) *)
 Definition C06_prefix_statement : Prop :=
-  forall (e : env) (sid : nat) (v : val) (p q : list N), wf_env e = true -> encode e sid v = p ++ q -> q <> [] ->
-  match decode e sid p with DErr => True | DOk _ _ => True (* = value of the complete leading members *) | _ => False end.
+  forall (e : env) (k : nat) (sid : nat) (vs : list val) (p q : list N),
+  wf_schema k e -> has_type e (TStruct sid) (VStruct vs) -> encode e sid (VStruct vs) = p ++ q -> q <> [] ->
+  match decode e sid p with
+  | DErr | DHuge => True
+  | DOk v r => exists i ps, v = VStruct (firstn i (norm_fields e vs (fields_of e sid)) ++ skipn i ps) /\
+                            Forall2 (fun fd p => prior_ok e (fty fd) (fdef fd) p) (fields_of e sid) ps
+  | _ => False
+  end.
 
 Print Assumptions C06_fixed_width_exact. Print Assumptions C06_fixed_width_truncated.
 Print Assumptions C06_string_exact. Print Assumptions C06_string_truncated.
 Print Assumptions C06_bytes_exact. Print Assumptions C06_bytes_truncated.
-Print Assumptions C06_int_prefix_rejected.
+Print Assumptions C06_scalar_prefix.
+Print Assumptions C06_prefix_flat.
+Print Assumptions C06_code_schemas_prefix_flat.
+Print Assumptions C06_code_schemas_flat_types.
+Print Assumptions C06_inadmissible_member.
+Print Assumptions C06_inadmissible_rejected.
